@@ -136,7 +136,10 @@ func runOnce(c Case) result {
 			}
 			mu.Unlock()
 			if answer {
+				// delivered AND dispatched before the client's Write returns: the handshake (whose
+				// budget is the same short RetransmitInterval) cannot time out on a loaded machine
 				mc.Feed(ceaFor(h))
+				mc.WaitParked(2 * time.Second)
 			}
 		case h.Code == 280 && h.Flags&0x80 == 0:
 			mu.Lock()
